@@ -258,7 +258,8 @@ class DAGRunConcurrentManager(DAGRunManagerLike):
                 u - Node
                 v - Node Edge
             """
-            return not self.dag.graph.edges[u, v].get(EdgeField.case_branch)
+            # (a label may be falsy: '', 0, False)
+            return self.dag.graph.edges[u, v].get(EdgeField.case_branch) is None
 
         def _filter_node(u: str) -> bool:
             """
